@@ -194,6 +194,31 @@ func checkAlwaysSigned(r *Report, p *Prog) {
 			why = "the object that is signed is not the object that is returned"
 		}
 		r.Check(ok, rule, cons, p.InstrPos(sign), "accept && method configured => "+ct.signFn+" == nil on the returned object", why)
+		// the signed object is not written again after the Sign step: the enveloped signature covers the element as it
+		// was when it was signed, and the builders re-embed that signature into whatever the fields say later
+		msg := sign.Call.Args[1]
+		var late []string
+		for _, b := range fn.Blocks {
+			for _, in := range b.Instrs {
+				st, ok := in.(*ssa.Store)
+				if !ok {
+					continue
+				}
+				if rootOfAddr(st.Addr) != msg && st.Addr != msg {
+					continue
+				}
+				after := false
+				if in.Block() == sign.Block() {
+					after = instrBefore(sign.Block(), sign, in)
+				} else {
+					after = blockReaches(sign.Block(), in.Block())
+				}
+				if after {
+					late = append(late, fmt.Sprintf("%s at %s", fc.AP(st.Addr), p.InstrPos(in)))
+				}
+			}
+		}
+		r.Check(len(late) == 0, "C13.enveloped", fmt.Sprintf("%s: the message is not modified after it was signed", p.FnName(fn)), p.InstrPos(sign), "no store to the message after "+ct.signFn, "written after signing: "+strings.Join(late, "; ")+" - the emitted element differs from the one the signature was computed over, so the signature cannot verify")
 	}
 	// redirect binding
 	fn := p.MustFunc("saml", "AuthnRequest", "Redirect")
@@ -498,4 +523,31 @@ func checkSPMetadataSigning(r *Report, p *Prog) {
 // litFieldsAll: all stores to typ.field in fn.
 func litFieldsAll(fn *ssa.Function, pkg, typ, field string) []*ssa.Store {
 	return litFields(fn, pkg, typ)[field]
+}
+
+// blockReaches: b is reachable from a along CFG edges (a itself excluded unless on a cycle).
+func blockReaches(a, b *ssa.BasicBlock) bool {
+	seen := map[*ssa.BasicBlock]bool{}
+	var dfs func(x *ssa.BasicBlock) bool
+	dfs = func(x *ssa.BasicBlock) bool {
+		if x == b {
+			return true
+		}
+		if seen[x] {
+			return false
+		}
+		seen[x] = true
+		for _, s := range x.Succs {
+			if dfs(s) {
+				return true
+			}
+		}
+		return false
+	}
+	for _, s := range a.Succs {
+		if dfs(s) {
+			return true
+		}
+	}
+	return false
 }
